@@ -164,6 +164,11 @@ def _helper(ctx, m, cfg, fname, cases, mkargs, mkspec, what, props):
 
 
 def check_validity(ctx, m, cfg, tier="quick"):
+    from . import core
+    core.replay(ctx, core.cached(m.path, "bitprov-validity-" + cfg, tier, lambda rec: _check_validity(rec, m, cfg, tier)))
+
+
+def _check_validity(ctx, m, cfg, tier="quick"):
     """C01: the four bit-trick helpers of isValidCell mean what the layout documents; thorough: isValidCell as a whole."""
     pent, nbc = _pentagons(m)
     h = LV.input
@@ -615,17 +620,33 @@ INDEXOPS = {
 }
 
 
-def check_indexops(ctx, m, cfg, tier="quick", pid=None):
+def check_indexops(ctx, m, cfg, tier="quick", pid=None, funcs=None):
+    """pid: run the instances attributed to the property; funcs: additionally every instance about a function in this set (call-graph wiring)"""
+    from . import core
     n = 0
     for name, (fn, props) in INDEXOPS.items():
-        if pid is not None and pid not in props:
+        if pid is not None and pid not in props and not (funcs and set(INDEX_FUNCS.get(name, ())) & set(funcs)):
             continue
         n += 1
-        try:
-            fn(ctx, m, cfg)
-        except (Shape, AnalysisBroken) as e:
-            ctx.broken(RULE, "%s: %s" % (name, e))
+
+        def run(rec, fn=fn, name=name):
+            try:
+                fn(rec, m, cfg)
+            except (Shape, AnalysisBroken) as e:
+                rec.broken(RULE, "%s: %s" % (name, e))
+        core.replay(ctx, core.cached(m.path, "bitprov-" + name + "-" + cfg, tier, run))
     return n
+
+
+# functions each instance is about (for wiring by call-graph reachability from a property's entry points)
+INDEX_FUNCS = {
+    "leading": ["_h3LeadingNonZeroDigit"], "ispentagon": ["isPentagon"], "rotate": ["_h3Rotate60ccw", "_h3Rotate60cw"],
+    "rotate-pent": ["_h3RotatePent60ccw", "_h3RotatePent60cw"], "parent": ["cellToParent"], "center-child": ["cellToCenterChild"],
+    "direct-child": ["makeDirectChild"], "edge-origin": ["getDirectedEdgeOrigin"], "iter-init": ["iterInitParent", "_iterInitParent"],
+    "iter-step": ["iterStepChild"], "getters": ["getResolution", "getBaseCellNumber", "isResClassIII"], "valid-edge": ["isValidDirectedEdge"],
+    "closure": ["cellToParent", "cellToCenterChild", "getDirectedEdgeOrigin"], "enumerators": ["getRes0Cells", "getPentagons", "setH3Index"],
+    "child-pos": ["cellToChildPos"], "pos-to-cell": ["childPosToCell"],
+}
 
 
 TEXT["indexops"] = ("R-BITPROV (index operations): the same lane-transducer interpretation, with loops unrolled under a case split on the resolution field "
